@@ -292,7 +292,8 @@ def run(chk, replay=None):
                                 dict(kind="builder-failure", corpus=j[0], mode=mode, env=r["env"], stderr=r["stderr"], cmd=r["cmd"])))
                 continue
             if r["hashes"] != ref["hashes"]:
-                diff = sorted(k for k in set(r["hashes"]) | set(ref["hashes"]) if r["hashes"].get(k) != ref["hashes"].get(k))
+                diff = sorted((k for k in set(r["hashes"]) | set(ref["hashes"]) if r["hashes"].get(k) != ref["hashes"].get(k)),
+                              key=lambda k: (k == "_dump.txt", k))   # emitted files first, the item dump of the harness last
                 f0 = diff[0]
                 def text(run_):
                     q = os.path.join(run_["out"], f0)
@@ -330,7 +331,7 @@ def run(chk, replay=None):
                           dict(kind="correspondence", correspondence="layout (fam/bld/coq/Pipeline.v layout_pred vs emitted files)", **pb),
                           no_input=True)
         if not gate["ok"]:
-            chk.violation("proof obligation broken: %s (%s) -- %d builder runs hashed identically" % (gate.get("failed"), gate.get("error", "")[:300], len(results)),
+            chk.violation("proof obligation broken: %s (%s) -- %d builder runs hashed identically" % (gate.get("failed"), " ".join((gate.get("error") or "").split())[:240], len(results)),
                           dict(kind="proof", theorem_file="fam/bld/coq/Properties/C17.v", failed=gate.get("failed"),
                                error=gate.get("error"), theorems=gate["theorems"],
                                hint="Proofs/InventoryP.v inventory_accounted compares the regenerated unordered-iteration inventory "
